@@ -87,7 +87,7 @@ package coreblock
 //@ // every candidate block is examined; the first encrypted one decides (document-level only when asked)
 //@ func inheritBlockEncryption -> (enc, link, err)
 //@   ensures err == nil && enc == nil ==> exhausted(1)
-//@   loop 1 invariant sameslice(rangeslice1, heads)
+//@   loop 1 ranges heads
 //@   assert before call#1 GetEncryptionBlockFromBytes: sameslice(arg0, res(Get, 2, 0)) && res(Get, 2, 1) == nil
 //@   ensures err == nil && enc != nil ==> sameslice(enc.Key, res(GetEncryptionBlockFromBytes, 1, 0).Key) && (docLevelOnly ==> res(GetEncryptionBlockFromBytes, 1, 0).FieldName == nil)
 //@   tags C11
